@@ -384,6 +384,7 @@ impl VisitMut for Normalizer {
     }
 
     fn visit_block_mut(&mut self, b: &mut syn::Block) {
+        inline_stable_locals(b);
         // `let P = E else { D }; REST`  ->  `match E { P => { REST }, _ => { D } }`
         if let Some(i) = b.stmts.iter().position(|s| matches!(s, syn::Stmt::Local(l) if l.attrs.is_empty() && l.init.as_ref().map_or(false, |x| x.diverge.is_some()))) {
             let rest: Vec<syn::Stmt> = b.stmts.drain(i + 1..).collect();
@@ -480,6 +481,20 @@ impl VisitMut for Normalizer {
         if let Some(r) = replacement {
             *e = r;
         }
+        // parentheses around an expression that binds tighter than anything are noise
+        loop {
+            let inner: Option<syn::Expr> = match e {
+                syn::Expr::Paren(p) if p.attrs.is_empty() => match &*p.expr {
+                    syn::Expr::Path(_) | syn::Expr::Lit(_) | syn::Expr::Array(_) | syn::Expr::Repeat(_) | syn::Expr::Call(_) | syn::Expr::MethodCall(_) | syn::Expr::Index(_) | syn::Expr::Field(_) | syn::Expr::Macro(_) | syn::Expr::Tuple(_) | syn::Expr::Paren(_) => Some((*p.expr).clone()),
+                    _ => None,
+                },
+                _ => None,
+            };
+            match inner {
+                Some(x) => *e = x,
+                None => break,
+            }
+        }
         visit_mut::visit_expr_mut(self, e);
         if let syn::Expr::Match(m) = e {
             // the complement of a single constructor pattern is the wildcard
@@ -506,6 +521,107 @@ impl VisitMut for Normalizer {
                 }
             }
             sort_arms(m);
+        }
+    }
+}
+
+// ---------------------------------------------------------------- local inlining (window tests, constant locals)
+
+const CONSUMING: &[&str] = &["next_char", "eat_single_char", "lex_", "take_", "radix_run", "eat_indentation", "parse_", "consume_", "slide", "next("];
+
+fn replace_ident_in_stream(ts: proc_macro2::TokenStream, name: &str, with: &proc_macro2::TokenStream) -> proc_macro2::TokenStream {
+    let mut out = proc_macro2::TokenStream::new();
+    let mut prev_dot = false;
+    for tt in ts {
+        match tt {
+            proc_macro2::TokenTree::Ident(ref i) if i == name && !prev_dot => {
+                let g = proc_macro2::Group::new(proc_macro2::Delimiter::Parenthesis, with.clone());
+                out.extend(std::iter::once(proc_macro2::TokenTree::Group(g)));
+                prev_dot = false;
+            }
+            proc_macro2::TokenTree::Group(g) => {
+                let mut ng = proc_macro2::Group::new(g.delimiter(), replace_ident_in_stream(g.stream(), name, with));
+                ng.set_span(g.span());
+                out.extend(std::iter::once(proc_macro2::TokenTree::Group(ng)));
+                prev_dot = false;
+            }
+            other => {
+                prev_dot = matches!(&other, proc_macro2::TokenTree::Punct(p) if p.as_char() == '.');
+                out.extend(std::iter::once(other));
+            }
+        }
+    }
+    out
+}
+
+/// `let x = <test of the character window / constant built from immutable locals>;` is read in place at its uses
+/// when nothing is consumed between the `let` and the last use (token order). Hoisting such a test into a local, or
+/// not, is the same program.
+fn inline_stable_locals(b: &mut syn::Block) {
+    let mut i = 0;
+    while i < b.stmts.len() {
+        let cand: Option<(String, syn::Expr)> = match &b.stmts[i] {
+            syn::Stmt::Local(l) if l.attrs.is_empty() => match (&l.pat, &l.init) {
+                (syn::Pat::Ident(pi), Some(init)) if pi.mutability.is_none() && pi.by_ref.is_none() && pi.subpat.is_none() && init.diverge.is_none() => {
+                    let t = sm::tsc(&init.expr);
+                    let window_test = t.contains("self.window[") && !t.contains("()") && !t.contains("?") && !t.contains("self.window.");
+                    // built only from literals, `Some(..)`, plain immutable locals and array repetition: no field access,
+                    // no method call, no move out of a place
+                    let constant = !t.contains("self") && !t.contains('.') && !t.contains("()") && !t.contains('&') && !t.contains('*') && (t.starts_with("[Some(") || t.starts_with("Some(") || matches!(&init.expr.as_ref(), syn::Expr::Lit(_)));
+                    if (window_test || constant) && t.len() < 120 && !t.contains("{") {
+                        Some((pi.ident.to_string(), (*init.expr).clone()))
+                    } else {
+                        None
+                    }
+                }
+                _ => None,
+            },
+            _ => None,
+        };
+        let Some((name, init)) = cand else {
+            i += 1;
+            continue;
+        };
+        // token texts of the statements after the let, with positions of uses / reassignments / consumption
+        let rest: Vec<String> = {
+            let mut v = vec![];
+            for st in &b.stmts[i + 1..] {
+                sm::flat_tokens(quote::ToTokens::to_token_stream(st), &mut v);
+            }
+            v
+        };
+        let uses: Vec<usize> = rest.iter().enumerate().filter(|(k, t)| **t == name && (*k == 0 || rest[*k - 1] != ".")).map(|(k, _)| k).collect();
+        if uses.is_empty() || uses.len() > 4 {
+            i += 1;
+            continue;
+        }
+        let is_window = sm::tsc(&init).contains("self.window[");
+        let first_consume = rest.iter().enumerate().position(|(k, t)| CONSUMING.iter().any(|c| t.starts_with(c.trim_end_matches('('))) && rest.get(k + 1).map_or(false, |n| n == "(") && k > 0 && rest[k - 1] == ".");
+        let shadowed = rest.windows(2).any(|w| (w[0] == "let" || w[0] == "mut") && w[1] == name);
+        let ok = !shadowed && (!is_window || first_consume.map_or(true, |c| *uses.last().unwrap() < c));
+        if !ok {
+            i += 1;
+            continue;
+        }
+        let with = quote::ToTokens::to_token_stream(&init);
+        let mut new_stmts: Vec<syn::Stmt> = vec![];
+        let mut all_ok = true;
+        for st in &b.stmts[i + 1..] {
+            let ts = replace_ident_in_stream(quote::ToTokens::to_token_stream(st), &name, &with);
+            match syn::parse::Parser::parse2(syn::Block::parse_within, ts) {
+                Ok(mut v) if v.len() == 1 => new_stmts.push(v.remove(0)),
+                _ => {
+                    all_ok = false;
+                    break;
+                }
+            }
+        }
+        if all_ok {
+            b.stmts.truncate(i);
+            b.stmts.extend(new_stmts);
+            // do not advance: the next statement now sits at index i
+        } else {
+            i += 1;
         }
     }
 }
